@@ -153,7 +153,37 @@ def _strip_json(raw):
 
 
 def replay_file(prop, path):
-    """check <Cxx> --replay <file>: print what the replay file records and re-run the property check."""
+    """check <Cxx> --replay <file>: re-run what the replay file records against /repo's current working tree: Kani's
+    concrete-playback unit test (real functions on the counterexample values) and / or the canned replay tests.
+    Exit 1 (and a VIOLATION line) if the failure reproduces, 0 if it does not, 2 if nothing could be run."""
+    from common import Scratch, attach
     rec = json.load(open(path))
-    log(json.dumps({k: rec[k] for k in rec if k not in ("verifier_output",)}, indent=1)[:4000])
-    return 0
+    log(json.dumps({k: rec[k] for k in rec if k not in ("verifier_output", "concrete_playback_test", "replay_on_real_code", "playback_output")}, indent=1)[:3000])
+    reproduced, ran = False, False
+    with Scratch(prop.id + "-replay") as scratch:
+        if rec.get("engine") == "kani" and rec.get("concrete_playback_test"):
+            for unit in prop.kani:
+                for h in unit.harnesses:
+                    if h.name == rec.get("harness"):
+                        atts = [(rel, os.path.join(VERIF, m), n, "kani") for (rel, m, n) in unit.attach]
+                        attach(scratch, atts, unit.contracts)
+                        ok, out = _playback_on_real_code(scratch, unit, h, rec["concrete_playback_test"])
+                        ran = ran or ok is not None
+                        reproduced = reproduced or bool(ok)
+                        log("concrete playback on the real code: reproduced=%s" % ok)
+                        log(out[-1500:])
+        tests = []
+        rr = rec.get("replay_on_real_code")
+        if isinstance(rr, list):
+            tests = [r["test"] for r in rr]
+        elif rec.get("engine") == "verus":
+            tests = ["replay_" + f["function"].rsplit("::", 1)[-1] for f in rec.get("failed_functions", [])]
+        if tests:
+            for r in run_custom_replay(prop, scratch, tests):
+                ran = ran or r["reproduced"] is not None
+                reproduced = reproduced or bool(r["reproduced"])
+                log("replay test %s on the real code: reproduced=%s %s" % (r["test"], r["reproduced"], r.get("failing_input", "")))
+    if reproduced:
+        log("VIOLATION property=%s replay=%s" % (prop.id, path))
+        return 1
+    return 0 if ran else 2
